@@ -19,5 +19,5 @@ def run(tier, seed, cx):
                                   replay_cmd='%s/%s/h_arena %d %d' % (cx['TARGET'], prof, s, rounds)), True))
             samples.append('%s seed %d: %s' % (prof, s, last))
     cov = dict(arena_sends=sends, arena_payload_reads=reads, arena_samples=samples, arena_wall_s=round(time.time() - t0, 1),
-               arena_rule='h_arena: per top-level send a handler allocates a slice (0 .. 130000 u64, i.e. up to 1 MiB) and a string (ASCII or multi-byte, either allocation order, with a single-value allocation in between) in the arena and embeds them by reference in an event that is forwarded with fan-out 1..3 to depth 0..3, to global and targeted receivers, with unrelated events and allocations in between; every fifth round a component type held by 2..5 entities is removed while a Despawn listener allocates and sends a payload per entity (a flush with several root events); every read verifies the pattern; the hook counter must show exactly one reset per top-level send and none before the last read')
+               arena_rule='h_arena: per top-level send a handler allocates a slice (0 .. 130000 u64, i.e. up to 1 MiB) and a string (ASCII or multi-byte, either allocation order, with a single-value allocation in between) in the arena and embeds them by reference in an event that is forwarded with fan-out 1..3 to depth 0..3, to global and targeted receivers, with unrelated events and allocations in between; every fifth round a component type held by 2..5 entities is removed while a Despawn listener allocates and sends a payload per entity (a flush with several root events); each round also sends a second chain with small u32/u8/u16 slices and events of alignment 1, 2, 4, 8 and 16 interleaved (allocated, sent, delivered and released around a payload that two receivers verify); every read verifies the pattern; the hook counter must show exactly one reset per top-level send and none before the last read')
     return viol, cov
